@@ -26,7 +26,7 @@ structure OEntry where
   rel : Option String := none  -- result of the KV release since the last `unlocked`
   fault : Bool := false        -- the KV failed a renewal of this instance since it locked (injected by the wrapper)
   cfgTtl : Nat := 0            -- lease TTL this instance acquires with (its configured `LeaseTTL`), 0 = not seen yet
-  expl : Option Nat := none    -- a `RenewLockLease(key, dur)` call is in progress (`renewing` seen): its `dur`
+  expl : Option Int := none    -- a `RenewLockLease(key, dur)` call is in progress (`renewing` seen): its `dur`
   explRes : Option String := none  -- what the KV renewal made by that call returned
 
 structure DState where
@@ -220,11 +220,11 @@ def dstep (d : DState) (toks : List String) (rhs : String) : DState × Verdict :
     | none => (d, .bad "unlocking args")
   -- ---- explicit `RenewLockLease(key, dur)` ----
   | ["renewing", i, key, dur, _t] =>
-    match i.toNat?, dur.toNat? with
+    match i.toNat?, dur.toInt? with
     | some i, some dur => let e := orcOf d key i; (setOrc d { e with expl := some dur, explRes := none }, .ok)
     | _, _ => (d, .bad "renewing args")
   | ["renewedlock", i, key, dur, t] =>
-    match i.toNat?, dur.toNat?, t.toNat? with
+    match i.toNat?, dur.toInt?, t.toNat? with
     | some i, some dur, some t =>
       let e := orcOf d key i
       let d1 := setOrc d { e with expl := none, explRes := none }
